@@ -671,6 +671,44 @@ pub assume_specification [String::len] (s: &String) -> (ret: usize)
 pub assume_specification<T> [Option::<T>::or] (a: Option<T>, b: Option<T>) -> (ret: Option<T>)
     ensures ret == (if a.is_some() { a } else { b });
 
+// ------------------------------------------------------------------ binary floats as division operands (C08 float forms)
+/// What the crate's float division forms look at.  IEEE equality (`==`) is an UNINTERPRETED relation: the contracts say which
+/// routine runs when the exec comparison with the literal holds, not what the literal means.
+pub trait FloatSpec: Sized + Copy {
+    spec fn fl_normal(self) -> bool;
+    spec fn fl_eq(self, other: Self) -> bool;
+    spec fn fl_exact(self, i: int, s: int) -> bool;
+    spec fn fl_max_scale() -> int;
+}
+impl FloatSpec for f32 {
+    open spec fn fl_normal(self) -> bool { f32_category(f32_bits(self)) == core::num::FpCategory::Normal }
+    open spec fn fl_eq(self, other: f32) -> bool { self.eq_spec(&other) }
+    open spec fn fl_exact(self, i: int, s: int) -> bool { crate::vs::f32_exact(f32_bits(self), i, s) }
+    open spec fn fl_max_scale() -> int { 149 }
+}
+impl FloatSpec for f64 {
+    open spec fn fl_normal(self) -> bool { f64_category(f64_bits(self)) == core::num::FpCategory::Normal }
+    open spec fn fl_eq(self, other: f64) -> bool { self.eq_spec(&other) }
+    open spec fn fl_exact(self, i: int, s: int) -> bool { crate::vs::f64_exact(f64_bits(self), i, s) }
+    open spec fn fl_max_scale() -> int { 1074 }
+}
+/// num_traits::One on floats (`*self == 1.0`): uninterpreted, like the IEEE comparison itself
+pub uninterp spec fn f32_is_one(f: f32) -> bool;
+pub uninterp spec fn f64_is_one(f: f64) -> bool;
+impl One for f32 {
+    open spec fn is_one_spec(&self) -> bool { f32_is_one(*self) }
+    #[verifier::external_body] fn one() -> (ret: Self) { unimplemented!() }
+    #[verifier::external_body] fn is_one(&self) -> (ret: bool) { unimplemented!() }
+}
+impl One for f64 {
+    open spec fn is_one_spec(&self) -> bool { f64_is_one(*self) }
+    #[verifier::external_body] fn one() -> (ret: Self) { unimplemented!() }
+    #[verifier::external_body] fn is_one(&self) -> (ret: bool) { unimplemented!() }
+}
+/// std: is_normal() is `classify() == FpCategory::Normal`
+pub assume_specification [f32::is_normal] (d: f32) -> (r: bool) ensures r == d.fl_normal();
+pub assume_specification [f64::is_normal] (d: f64) -> (r: bool) ensures r == d.fl_normal();
+
 // ------------------------------------------------------------------ num_traits::PrimInt as used by the u64/u128 comparison fast path
 // In a submodule: the trait has a method called `from`, which must not come into scope through `use crate::shim::*`
 // (it would make `u64::from(x)` ambiguous everywhere); it is reachable only as num_traits::PrimInt.
